@@ -60,7 +60,7 @@ def major_rule(ctx):
     rid = "C02.major"
     ctx.rule(rid, "CBORValidator::visit_type2 on Type2::DataMajorType{mt, constraint}: for mt in 0..7 and every kind of document "
                   "value the verdict equals RFC 8949 section 3.1 (0 uint, 1 nint, 2 bstr, 3 tstr, 4 array, 5 map, 7 "
-                  "simple/float; #6 is Type2::TaggedData, see C02.tagged); `#0.n` accepts exactly n and `#1.n` exactly -1-n "
+                  "simple/float; #6 is Type2::TaggedData, see C02.tagged); `#0.n` accepts exactly n, `#1.n` exactly -1-n, `#7.20..23` false / true / null / undefined, `#7.25..27` floats and any other `#7.n` the simple value n "
                   "(abstract evaluation of the source)", floor=80)
     f = ctx.facts
     fi = vt.visitor_fn(f, "cbor", "visit_type2")
@@ -80,6 +80,18 @@ def major_rule(ctx):
               (0, 5, "nint=-5", ("enum", "Value::Integer", [-5]), False), (0, 5, "nint=-6", ("enum", "Value::Integer", [-6]), False),
               (1, 5, "nint=-6", ("enum", "Value::Integer", [-6]), True), (1, 5, "nint=-5", ("enum", "Value::Integer", [-5]), False),
               (1, 5, "uint=5", ("enum", "Value::Integer", [5]), False)]
+    # #7.n: 20..23 are false / true / null / undefined, other n below 24 or from 32 a simple value with that number, 25..27 the three
+    # float widths (RFC 8610 3.6 and Appendix D: false = #7.20, true = #7.21, nil = #7.22, float16 = #7.25, float32 = #7.26, float64 = #7.27)
+    F = ("enum", "Value::Float", [1.5])
+    for n in (25, 26, 27):
+        cases.append((7, n, "float", F, True))
+        cases.append((7, n, "false", ("enum", "Value::Bool", [False]), False))
+    cases += [(7, 20, "false", ("enum", "Value::Bool", [False]), True), (7, 20, "true", ("enum", "Value::Bool", [True]), False),
+              (7, 21, "true", ("enum", "Value::Bool", [True]), True), (7, 21, "false", ("enum", "Value::Bool", [False]), False),
+              (7, 22, "null", ("enum", "Value::Null", []), True), (7, 20, "null", ("enum", "Value::Null", []), False),
+              (7, 20, "float", F, False), (7, 32, "float", F, False),
+              (7, 99, "simple(99)", ("enum", "Value::Simple", [99]), True), (7, 99, "simple(100)", ("enum", "Value::Simple", [100]), False),
+              (7, 22, "uint=22", ("enum", "Value::Integer", [22]), False)]
     for (mt, con, dk, dv, exp) in cases:
         t2 = ("enum", "Type2::DataMajorType", {"mt": mt, "constraint": ("Some", ("tagc", con)) if con is not None else ("None",)})
         r = vt.Run(f, "cbor", "default", {"self.cbor": dv, "self.state.ctrl": ("None",)}, {"t2": t2}, scripts={"as_literal": tagc, "is_literal": tagc})
